@@ -6,9 +6,9 @@ import apigen, genrun, libhost, rpc
 PKG = "acme.lib.v1"
 CORPUS = os.path.join(os.path.dirname(os.path.dirname(os.path.dirname(os.path.abspath(__file__)))), "corpus", "C07")
 INT_KINDS = ["int32", "int64", "uint32", "uint64", "sint32", "sint64", "fixed32", "fixed64", "sfixed32", "sfixed64"]
-REP_KINDS = ["message", "message", "string", "map", "enum", "other_file", "int", "bytes", "double", "nested", "map_scalar", "map_intkey", "map_other_file"]
+REP_KINDS = ["message", "message", "string", "map", "enum", "other_file", "int", "bytes", "double", "nested", "map_scalar", "map_intkey", "map_other_file", "map_enum"]
 FILE_FREE_KINDS = ("string", "int", "other_file", "bytes", "double", "map_scalar")      # need nothing of lib.proto
-MAP_KINDS = ("map", "map_scalar", "map_intkey", "map_other_file")
+MAP_KINDS = ("map", "map_scalar", "map_intkey", "map_other_file", "map_enum")
 
 
 def gen_shape(r: apigen.Rng, idx: int, conforming=None, force=None, first_kind=None):
@@ -171,6 +171,7 @@ def build_api(shapes):
             elif kind == "map": decl.append(lambda n, fn=fn, rs=rs: rs.map_field(fn, "string", "message", number=n, vtype_name=book))
             elif kind == "map_scalar": decl.append(lambda n, fn=fn, rs=rs: rs.map_field(fn, "string", "int32", number=n))
             elif kind == "map_intkey": decl.append(lambda n, fn=fn, rs=rs: rs.map_field(fn, "int32", "message", number=n, vtype_name=book))
+            elif kind == "map_enum": decl.append(lambda n, fn=fn, rs=rs: rs.map_field(fn, "string", "enum", number=n, vtype_name=color))
             elif kind == "map_other_file": decl.append(lambda n, fn=fn, rs=rs: rs.map_field(fn, "string", "message", number=n, vtype_name=other))
         if s["next_page_token"] == "str": decl.append(lambda n, rs=rs: rs.field("next_page_token", number=n, optional="next" in opt))
         elif s["next_page_token"] == "repeated_str": decl.append(lambda n, rs=rs: rs.field("next_page_token", number=n, repeated=True))
@@ -181,27 +182,6 @@ def build_api(shapes):
         svc.method(s["name"], rq, rs, http=None if st else ("get", "/v1/lists/" + s["name"].lower()),     # every request field travels in the query over REST
                    sigs=["parent,filter"] if s.get("sig") else (), ss=st in ("ss", "bidi"), cs=st in ("cs", "bidi"))
     return files
-
-
-def map_value_foreign(s):
-    """the item field is a map whose VALUE message is declared in another file than the request and the response
-    (finding pagers-import:map-value-type-from-other-module: pagers.py names the value type's module without importing it)"""
-    if not s["repeated"]:
-        return False
-    k = s["repeated"][0]
-    if k == "map_other_file":
-        return not s.get("resp_other_file")
-    if k in ("map", "map_intkey"):       # Book lives where the messages live, except for the sub-package service of `two_svc`
-        return s.get("layout") == "two_svc" and s.get("svc") == "Keeper"
-    return False
-
-
-def avoid_known(shapes):
-    """regular shares stay clear of the recorded finding (its own corpus case runs on every run), so that their sessions run"""
-    for s in shapes:
-        if map_value_foreign(s):
-            s["repeated"][0] = "map_scalar"
-    return shapes
 
 
 def with_layout(r, shapes, layout):
@@ -218,7 +198,7 @@ def with_layout(r, shapes, layout):
             if k < len(shapes) and shapes[k].get("mutation"):
                 keep = {kk: shapes[k][kk] for kk in ("name", "layout", "svc")}
                 shapes[k] = dict(gen_shape(r, k, conforming=True), **keep)
-    return avoid_known(shapes)
+    return shapes
 
 
 def ftype(field):
@@ -262,6 +242,8 @@ def page_json(s, page, field0, kind):
         d[field0] = {(f"k{i}" if kind == "map" else str(i)): {"name": f"b{i}", "pages": i} for i in page["ids"]}
     elif kind == "map_scalar":
         d[field0] = {f"k{i}": i for i in page["ids"]}
+    elif kind == "map_enum":
+        d[field0] = {f"k{i}": ["RED", "BLUE"][i % 2] for i in page["ids"]}
     elif kind == "map_other_file":
         d[field0] = {f"k{i}": {"id": f"s{i}", "rank": i} for i in page["ids"]}
     else:
@@ -434,15 +416,7 @@ def classify_service(ctx, svc, shapes):
 
 def session_failed(ctx, label, sess, shapes):
     """a session that could not even start: the emitted package does not import"""
-    text = str(sess)
-    foreign = [s for s in shapes if map_value_foreign(s) and statement_paged(s)]
-    if foreign and "pagers.py" in text + str(ctx.__dict__.get("_c07_first_failure", "")) and ("NameError" in text or "partially initialized" in text):
-        ctx.__dict__.setdefault("_c07_first_failure", text)
-        ctx.fail("pagers-import:map-value-type-from-other-module",
-                 f"the emitted package does not import ({label}): pagers.py annotates the map pager with the value type's module without importing it: "
-                 f"{text[-300:]}", {"whole_api": True, "shapes": shapes, "shape": foreign[0]})
-    else:
-        ctx.fail("session-failed", f"T3 session failed ({label}): {text[-400:]}", {"whole_api": True, "shapes": shapes})
+    ctx.fail("session-failed", f"T3 session failed ({label}): {str(sess)[-400:]}", {"whole_api": True, "shapes": shapes})
 
 
 def t3_service(ctx, r, api, codec, root, svc, svc_full, shapes, model, wmodel, paged, unary, programs, all_shapes):
@@ -563,7 +537,8 @@ def t3_service(ctx, r, api, codec, root, svc, svc_full, shapes, model, wmodel, p
             ok = res_["ok"]
             # expected by the statement
             live = live_pages(hist)
-            want_ids = [i for p in live for i in p["ids"]]
+            exp = (lambda i: 1 + i % 2) if kind == "map_enum" else (lambda i: i)      # map_enum: the values are enum numbers (RED = 1, BLUE = 2)
+            want_ids = [exp(i) for p in live for i in p["ids"]]
             got = [item_id(kind, it, codec) for it in ok["items"]]
             if kind == "enum":
                 want_cmp = [["RED", "BLUE"][i % 2] for i in want_ids]
@@ -572,7 +547,7 @@ def t3_service(ctx, r, api, codec, root, svc, svc_full, shapes, model, wmodel, p
                 # order inside one page's map is the map's own; compare page by page as sets, pages in order
                 want_cmp, got_cmp, k = [], [], 0
                 for p in live:
-                    want_cmp.append(sorted(p["ids"])); got_cmp.append(sorted(got[k:k + len(p["ids"])])); k += len(p["ids"])
+                    want_cmp.append(sorted(map(exp, p["ids"]))); got_cmp.append(sorted(got[k:k + len(p["ids"])])); k += len(p["ids"])
                 got_cmp.append(got[k:]); want_cmp.append([])
             else:
                 want_cmp, got_cmp = want_ids, got
@@ -644,7 +619,8 @@ def t3_service(ctx, r, api, codec, root, svc, svc_full, shapes, model, wmodel, p
                     ctx.fail("pager-raised", f"{m.name} (rest): {res_.get('raised')}: {res_.get('msg')}", payload)
                     continue
                 live = live_pages(hist)
-                want_ids = [i for p in live for i in p["ids"]]
+                exp = (lambda i: 1 + i % 2) if kind == "map_enum" else (lambda i: i)      # map_enum: the values are enum numbers (RED = 1, BLUE = 2)
+                want_ids = [exp(i) for p in live for i in p["ids"]]
                 got = [item_id(kind, it, codec) for it in res_["ok"]["items"]]
                 if kind == "enum":
                     ok_items = [enum_name(g) for g in got] == [["RED", "BLUE"][i % 2] for i in want_ids]
@@ -950,7 +926,7 @@ def run(ctx):
     run_api(ctx, r, corpus, "corpus", programs=(LEAN_EXAMPLE_HISTORY, LEAN_EXAMPLE_PROGRAM))
     probe_extended_operation(ctx)
     exhaustive_programs(ctx, ctx.n(4, 7))
-    with open(os.path.join(CORPUS, "map_value_other_file.json")) as fh:      # finding: map pager whose value type lives in another module
+    with open(os.path.join(CORPUS, "map_value_other_file.json")) as fh:      # regression input (fixed 1f977de): map pager whose value type lives in another module; must HOLD
         run_api(ctx, r, json.load(fh)["payload"]["shapes"], "corpus:map-value-other-file")
     # proto sub-package layouts: one deterministic API per layout (corpus/C07/subpkg_<layout>.json), then a regular share below
     for lay in LAYOUTS:
@@ -963,7 +939,7 @@ def run(ctx):
             shapes.append(stream_shape(r, 8))
         if r.maybe(0.4):
             shapes = with_layout(r, shapes, r.pick(LAYOUTS))
-        run_api(ctx, r, avoid_known(shapes), f"api{a}")
+        run_api(ctx, r, shapes, f"api{a}")
 
 
 def search(ctx):
@@ -972,7 +948,7 @@ def search(ctx):
         shapes = [gen_shape(r, i) for i in range(8)]
         if a % 3 == 2:
             shapes = with_layout(r, shapes, LAYOUTS[(a // 3) % 3])
-        run_api(ctx, r, shapes if a % 2 else avoid_known(shapes), f"search{a}")
+        run_api(ctx, r, shapes, f"search{a}")
 
 
 def replay(ctx, payload):
